@@ -19,7 +19,9 @@ Definition loop_result (n : nid) (k j : nat) (last : val + err) (evs : list even
   | AAbort _ => False
   | ARes (inl x) => (k = 0 /\ ex = [] /\ last = inl x) \/
                    (1 <= length ex <= k /\ first_ok ex j = j + length ex - 1)
-  | ARes (inr e) => (k = 0 /\ ex = [] /\ last = inr e) \/ (0 < k /\ length ex = k /\ first_ok ex j = 0)
+  | ARes (inr e) => (k = 0 /\ ex = [] /\ last = inr e) \/
+                   (0 < k /\ length ex = k /\ first_ok ex j = 0 /\
+                    exists pre c' cn, ex = pre ++ [(c', RErr e, cn)])
   end.
 
 Lemma node_exec_event c n s arg s' r :
@@ -27,23 +29,25 @@ Lemma node_exec_event c n s arg s' r :
   node_exec o c n s arg = (s', r) ->
   exists ev, log s' = log s ++ [ev] /\ is_exec_of n ev = true /\ is_fb_of n ev = false /\
              cancelled s' = cancelled s || ev_cancel ev /\
-             resp_ok ev = (match r with inl _ => true | inr _ => false end).
+             resp_ok ev = (match r with inl _ => true | inr _ => false end) /\
+             (forall e, r = inr e -> exists c' cn, ev = (c', RErr e, cn)).
 Proof.
   unfold node_exec. intros -> H.
   destruct (emit o s (CExec n (exec_arg (u_exec c) arg))) as [s1 r1] eqn:E.
   apply emit_spec in E. destruct E as [cn [_ [L C]]]. inv H.
   eexists. split; [exact L|]. unfold is_exec_of, is_fb_of, resp_ok. cbn.
   rewrite Nat.eqb_refl. split; [reflexivity|]. split; [reflexivity|]. split; [exact C|].
-  destruct r1; reflexivity.
+  split; [destruct r1; reflexivity|].
+  intros e He. destruct r1; cbn in He; inv He. eauto.
 Qed.
 
-Lemma attempts_count c n w (Hex : has_exec c = true) :
+Lemma retry_loop_count sr swt wi c n w (Hex : has_exec c = true) :
   forall k i s p last s' ar j,
-    attempts o c n w k i s p last = (s', ar) ->
+    retry_loop o sr swt wi c n w k i s p last = (s', ar) ->
     exists evs, log s' = log s ++ evs /\ filter (is_fb_of n) evs = [] /\
                 (cancelled s = false -> existsb ev_cancel evs = false -> loop_result n k j last evs ar).
 Proof.
-  induction k as [|k IH]; intros i s p last s' ar j H; cbn [attempts] in H.
+  induction k as [|k IH]; intros i s p last s' ar j H; cbn [retry_loop] in H.
   - inv H. exists []. rewrite app_nil_r. repeat split; auto. intros _ _. cbn.
     destruct last; left; auto.
   - destruct (cancelled s) eqn:Hc.
@@ -54,13 +58,13 @@ Proof.
               (let '(s2, r) := node_exec o c n s1 p in
                match r with
                | inl x => (s2, ARes (inl x))
-               | inr e => attempts o c n w k (S i) s2 p (inr e)
+               | inr e => retry_loop o sr swt wi c n w k (S i) s2 p (inr e)
                end) = (s', ar) ->
               exists evs, log s' = log s ++ evs /\ filter (is_fb_of n) evs = [] /\
                 (existsb ev_cancel evs = false -> loop_result n (S k) j last evs ar)).
     { intros s1 pre L1 Fe Ff Hc1 HB.
       destruct (node_exec o c n s1 p) as [s2 r] eqn:Ee.
-      destruct (node_exec_event _ _ _ _ _ _ Hex Ee) as [ev [L2 [Hx [Hf [C2 Hok]]]]].
+      destruct (node_exec_event _ _ _ _ _ _ Hex Ee) as [ev [L2 [Hx [Hf [C2 [Hok Hev]]]]]].
       destruct r as [x|e].
       - inv HB. exists (pre ++ [ev]). split; [rewrite L2, L1, <- app_assoc; reflexivity|].
         split; [rewrite filter_snoc, Ff, Hf; reflexivity|].
@@ -77,40 +81,151 @@ Proof.
         + destruct R3 as [[_ [_ Hl]]|[[Hl1 Hl2] Hfo]]; [discriminate|].
           right. cbn [length]. rewrite (first_ok_fail _ _ _ Hok). split; lia.
         + right. cbn [length]. rewrite (first_ok_fail _ _ _ Hok).
-          destruct R3 as [[-> [-> _]]|[Hk [Hl Hfo]]]; cbn; repeat split; auto; lia. }
+          destruct R3 as [[-> [-> Hl]]|[Hk [Hl [Hfo [pre' [c' [cn' Hpre]]]]]]].
+          * inv Hl. destruct (Hev _ eq_refl) as [c' [cn' ->]].
+            cbn. repeat split; auto; try lia. exists [], c', cn'. reflexivity.
+          * rewrite Hpre. repeat split; auto; try lia.
+            -- rewrite <- Hpre. lia.
+            -- rewrite <- Hpre. exact Hfo.
+            -- exists (ev :: pre'), c', cn'. reflexivity. }
     destruct (Nat.ltb 0 i && Nat.ltb 0 w).
-    + destruct (emit o s (CWait n 0 i)) as [sw rw] eqn:Ew.
+    + destruct (emit o s (CWait n wi i)) as [sw rw] eqn:Ew.
       apply emit_spec in Ew. destruct Ew as [cnw [_ [Lw Cw]]]. rewrite Hc in Cw. cbn in Cw.
       destruct (cancelled sw) eqn:Hsw.
       * inv H. eexists. split; [exact Lw|]. split; [reflexivity|].
         intros _ Hq. cbn in Hq. discriminate.
-      * destruct (Body sw [(CWait n 0 i, rw, cnw)] Lw eq_refl eq_refl ltac:(auto) H) as [evs [L [F R]]].
+      * destruct (Body sw [(CWait n wi i, rw, cnw)] Lw eq_refl eq_refl ltac:(auto) H) as [evs [L [F R]]].
         exists evs. auto.
     + destruct (Body s [] ltac:(now rewrite app_nil_r) eq_refl eq_refl ltac:(auto) H) as [evs [L [F R]]].
       exists evs. auto.
 Qed.
 
 (* read for a budget N >= 1 from the start of the loop: exactly min(k, N) attempts, where k is
-   the index of the first succeeding attempt *)
+   the index of the first succeeding attempt; when all N fail the loop's error is the error of
+   the last attempt *)
+Definition budget_exact (n : nid) (N : nat) (evs : list event) (ar : ares) : Prop :=
+  let ex := filter (is_exec_of n) evs in
+  let k := first_ok ex 1 in
+  match ar with
+  | AAbort _ => False
+  | ARes (inl _) => k <> 0 /\ length ex = Nat.min k N     (* success at attempt k <= N *)
+  | ARes (inr e) => k = 0 /\ length ex = N /\            (* all N attempts failed *)
+                    exists pre c' cn, ex = pre ++ [(c', RErr e, cn)]
+  end.
+
+Lemma retry_loop_budget sr swt wi c n w N s p s' ar :
+  has_exec c = true -> 1 <= N -> cancelled s = false ->
+  retry_loop o sr swt wi c n w N 0 s p (inl VNil) = (s', ar) ->
+  exists evs, log s' = log s ++ evs /\ filter (is_fb_of n) evs = [] /\
+    (existsb ev_cancel evs = false -> budget_exact n N evs ar).
+Proof.
+  intros Hex HN Hc H.
+  destruct (retry_loop_count _ _ _ c n w Hex _ _ _ _ _ _ _ 1 H) as [evs [L [F R]]].
+  exists evs. split; auto. split; auto. intros Hq. specialize (R Hc Hq).
+  unfold loop_result in R. unfold budget_exact.
+  destruct ar as [e|[x|e]]; auto.
+  - cbv zeta. destruct R as [[H0 _]|[[H1 H2] H3]]; [lia|]. rewrite H3. split; lia.
+  - cbv zeta. destruct R as [[H1 _]|[_ [H2 [H3 H4]]]]; [lia|]. auto.
+Qed.
+
 Lemma C02_budget_exact_lemma c n w N s p s' ar :
   has_exec c = true -> 1 <= N -> cancelled s = false ->
   attempts o c n w N 0 s p (inl VNil) = (s', ar) ->
   exists evs, log s' = log s ++ evs /\
-    (existsb ev_cancel evs = false ->
-     let ex := filter (is_exec_of n) evs in
-     let k := first_ok ex 1 in
-     match ar with
-     | AAbort _ => False
-     | ARes (inl _) => k <> 0 /\ length ex = Nat.min k N     (* success at attempt k <= N *)
-     | ARes (inr _) => k = 0 /\ length ex = N               (* all N attempts failed *)
-     end).
+    (existsb ev_cancel evs = false -> budget_exact n N evs ar).
 Proof.
-  intros Hex HN Hc H.
-  destruct (attempts_count c n w Hex _ _ _ _ _ _ _ 1 H) as [evs [L [_ R]]].
-  exists evs. split; auto. intros Hq. specialize (R Hc Hq). unfold loop_result in R.
-  destruct ar as [e|[x|e]]; auto.
-  - cbv zeta. destruct R as [[H0 _]|[[H1 H2] H3]]; [lia|]. rewrite H3. split; lia.
-  - cbv zeta. destruct R as [[H1 _]|[_ [H2 H3]]]; [lia|]. auto.
+  unfold attempts. intros Hex HN Hc H.
+  destruct (retry_loop_budget _ _ _ _ _ _ _ _ _ _ _ Hex HN Hc H) as [evs [L [_ R]]]. eauto.
+Qed.
+
+(* ------------------------------------------------------------ the fallback *)
+Lemma node_fallback_event c n s p e s' r :
+  node_fallback o c n s p e = (s', r) ->
+  match u_fb c with
+  | FbUser => exists rr cn, log s' = log s ++ [(CFallback n p e, rr, cn)] /\ r = ret_val rr
+  | _ => s' = s /\ r = inr e
+  end.
+Proof.
+  unfold node_fallback. destruct (u_fb c); intros H; try (inv H; auto; fail).
+  destruct (emit o s (CFallback n p e)) as [s1 rr] eqn:E. inv H.
+  apply emit_spec in E. destruct E as [cn [_ [L _]]]. eauto.
+Qed.
+
+(* exec phase of a batch item (runExecWithRetries): budget exact, fallback exactly once iff
+   all N attempts failed and the node has a fallback of its own, with the item and the error
+   of the last attempt; never after a success *)
+Definition phase_exact (c : ucfg) (n : nid) (N : nat) (p : val) (evs : list event) : Prop :=
+  let ex := filter (is_exec_of n) evs in
+  let fb := filter (is_fb_of n) evs in
+  let k := first_ok ex 1 in
+  (k <> 0 /\ length ex = Nat.min k N /\ fb = []) \/
+  (k = 0 /\ length ex = N /\
+   exists pre c' cn e, ex = pre ++ [(c', RErr e, cn)] /\
+     match u_fb c with
+     | FbUser => exists rr cn', fb = [(CFallback n p e, rr, cn')]
+     | _ => fb = []
+     end).
+
+Lemma exec_with_retries_exact c n s item s' r N w :
+  has_exec c = true -> retry_of c = (N, w) -> 1 <= N -> cancelled s = false ->
+  exec_with_retries o c n s item = (s', r) ->
+  exists evs, log s' = log s ++ evs /\
+    (existsb ev_cancel evs = false -> phase_exact c n N item evs).
+Proof.
+  intros Hex Hr HN Hc. unfold exec_with_retries. rewrite Hr. unfold item_attempts.
+  match goal with |- context [retry_loop o ?a ?b ?d c n w N 0 s item (inl VNil)] =>
+    destruct (retry_loop o a b d c n w N 0 s item (inl VNil)) as [s1 ar] eqn:Ea end.
+  destruct (retry_loop_budget _ _ _ _ _ _ _ _ _ _ _ Hex HN Hc Ea) as [evs [L [F R]]].
+  destruct ar as [ea|[x|e]].
+  - intros H; inv H. exists evs. split; auto. intros Hq. destruct (R Hq).
+  - intros H; inv H. exists evs. split; auto. intros Hq. specialize (R Hq).
+    unfold budget_exact in R. cbv zeta in R. destruct R as [R1 R2].
+    left. rewrite F. auto.
+  - intros H.
+    assert (Hfb : exists s2 r2, node_fallback o c n s1 item e = (s2, r2) /\
+                   (match u_fb c with FbNone => s2 = s1 | _ => True end) /\ s2 = s').
+    { destruct (u_fb c) eqn:Hfb.
+      - inv H. exists s', (inr e). unfold node_fallback. rewrite Hfb. auto.
+      - exists s', r. auto.
+      - exists s', r. auto. }
+    destruct Hfb as [s2 [r2 [Ef [_ ->]]]].
+    apply node_fallback_event in Ef.
+    destruct (u_fb c) eqn:Hfb.
+    + destruct Ef as [-> _]. exists evs. split; auto. intros Hq. specialize (R Hq).
+      unfold budget_exact in R. cbv zeta in R. destruct R as [R1 [R2 [pre [c' [cn R3]]]]].
+      right. rewrite F. repeat split; auto. exists pre, c', cn, e. rewrite Hfb. auto.
+    + destruct Ef as [-> _]. exists evs. split; auto. intros Hq. specialize (R Hq).
+      unfold budget_exact in R. cbv zeta in R. destruct R as [R1 [R2 [pre [c' [cn R3]]]]].
+      right. rewrite F. repeat split; auto. exists pre, c', cn, e. rewrite Hfb. auto.
+    + destruct Ef as [rr [cn' [L2 _]]].
+      exists (evs ++ [(CFallback n item e, rr, cn')]). split; [rewrite L2, L, <- app_assoc; reflexivity|].
+      intros Hq. rewrite existsb_app in Hq. apply orb_false_elim in Hq. destruct Hq as [Hq _].
+      specialize (R Hq). unfold budget_exact in R. cbv zeta in R.
+      destruct R as [R1 [R2 [pre [c' [cn R3]]]]].
+      right. unfold phase_exact. cbv zeta. rewrite !filter_app, F. cbn [filter app].
+      unfold is_exec_of, is_fb_of. cbn. rewrite Nat.eqb_refl, app_nil_r.
+      repeat split; auto. exists pre, c', cn, e. rewrite Hfb. split; eauto.
+Qed.
+
+(* the two copies of the retry loop are one loop: same attempts, same results, the abort
+   errors differ only in their wrap site *)
+Lemma C02_copies_agree_lemma c n w k i s p last :
+  w = 0 ->
+  let '(s1, a1) := attempts o c n w k i s p last in
+  let '(s2, a2) := item_attempts o c n w k i s p last in
+  s1 = s2 /\
+  match a1, a2 with
+  | ARes r1, ARes r2 => r1 = r2
+  | AAbort e1, AAbort e2 => class_of e1 = KCtx /\ class_of e2 = KCtx
+  | _, _ => False
+  end.
+Proof.
+  intros ->. unfold attempts, item_attempts. revert i s last.
+  induction k as [|k IH]; intros i s last; cbn [retry_loop].
+  - auto.
+  - destruct (cancelled s); [split; auto|].
+    rewrite Nat.ltb_irrefl, andb_false_r.
+    destruct (node_exec o c n s p) as [s2 [x|e]]; [auto|]. apply IH.
 Qed.
 
 End C02.
